@@ -200,6 +200,20 @@ theorem intRound_int (z : ℤ) : intRound ((z : ℝ)) = .ok z := by
 
 /-! ### small facts used by the property file -/
 
+theorem firstEq_lt {α : Type} [LinearOrder α] (x : α) : ∀ (ps : List α) (i j : Nat), firstEq x ps i = some j →
+    i ≤ j ∧ j < i + ps.length
+  | [], _, _, h => by simp [firstEq] at h
+  | p :: ps, i, j, h => by
+    unfold firstEq at h
+    split at h
+    · simp only [Option.some.injEq] at h
+      subst h
+      simp
+    · have := firstEq_lt x ps (i + 1) j h
+      simp only [List.length_cons]
+      omega
+
+
 theorem catLoop_lt {β : Type} [OfNat β 0] [Add β] [LT β] [DecidableLT β] (t : β) :
     ∀ (ps : List β) (cum : β) (i last : Nat), last < i → catLoop t ps cum i last < i + ps.length
   | [], _, i, last, h => by unfold catLoop; simpa using h
